@@ -41,6 +41,7 @@ theorem ltr_deq {s : State} {t : Tid} {e : Event} {x' : Thr} (ha : InvA s) (hb :
   | ready r obs hl hr ho => refine tinvF_out ?_; simp [hl, Loc.deqPhase]
   | noteSeen hl => refine tinvF_out ?_; rcases hl with hl | hl | hl <;> simp [hl, Loc.deqPhase]
   | noteNotify hl ht => refine tinvF_out ?_; simp [hl, Loc.deqPhase]
+  | dbgLd obs hl ho => refine tinvF_out ?_; simp; split <;> simp [Loc.deqPhase]
   | _ => refine tinvF_out ?_; simp [Loc.deqPhase, Thr.fresh]
 
 theorem ite_sRel_deq (b : Bool) : (if b = true then Loc.sRel else Loc.sRcLd).deqPhase = false := by
@@ -63,6 +64,8 @@ theorem invF_tr {cfg : Config} {s s' : State} {e : Event} (ha : InvA s) (hb : In
       have hst := ((ha.thr t).prep (by simp [waitPrep, hl, hc])).1
       refine invF_one (t := t) (r := (s.thr t).r) ha hf (fun u hu => by simp [hu]) (fun q hq => by simp [hq])
         (.inl (by simp)) (.inr (.inr (.inl hst))) (by simp) (by simp) (by simp) (by simpa using hf.unl1 _) ?_
+      refine tinvF_out ?_; simp [Loc.deqPhase]
+    · refine invF_frame (t := t) ha hf (fun u hu => by simp [hu]) (fun q => ⟨rfl, rfl⟩) ?_
       refine tinvF_out ?_; simp [Loc.deqPhase]
     · refine invF_frame (t := t) ha hf (fun u hu => by simp [hu]) (fun q => ⟨rfl, rfl⟩) ?_
       refine tinvF_out ?_; simp [Loc.deqPhase]
@@ -114,6 +117,9 @@ theorem invF_tr {cfg : Config} {s s' : State} {e : Event} (ha : InvA s) (hb : In
       (fun q => by by_cases hq : q = (s.thr t).r <;> simp [hq]) ?_
     refine tinvF_out ?_; simp [Loc.deqPhase]
   | relWait2 t new obs n hl hh hnew hn hsp =>
+    refine invF_frame (t := t) ha hf (fun u hu => by simp [hu]) (fun q => ⟨rfl, rfl⟩) ?_
+    refine tinvF_out ?_; simp [Loc.deqPhase]
+  | relDbg t new obs n hl hh hnew hn hsp =>
     refine invF_frame (t := t) ha hf (fun u hu => by simp [hu]) (fun q => ⟨rfl, rfl⟩) ?_
     refine tinvF_out ?_; simp [Loc.deqPhase]
   | relSig t site new obs n hl hs hh hnew hn hsp =>
